@@ -161,7 +161,7 @@ func (h *hgen) client() {
 }
 
 func gen(g *vh.Gen) {
-	n := g.N(150, 5000)
+	n := g.N(300, 10000)
 	for i := 0; i < n; i++ {
 		naming := "local"
 		pool := poolLocal
